@@ -251,3 +251,13 @@ def run(ck, prog):
     _run_pre_subguard(ck, prog)
     from sa import subguard
     subguard.run_rule(ck, prog, set(DIMENSION_FILES))
+
+
+# ------------------------------------------------------------------ generic: a configuration field read on one successful path is read on every successful path
+_run_pre_config = run
+
+
+def run(ck, prog):
+    _run_pre_config(ck, prog)
+    from sa import config
+    config.run_rule(ck, prog, set(DIMENSION_FILES))
